@@ -372,14 +372,15 @@ def star(rnd, cfg):
     n_arm = rnd.choice([2, 3])
     tags = {"arch:star", "hub"}
     if n_arm == 3:
-        hub = "[$]C(C[<])(C[<])(C[<])"
+        hub = rnd.choice(["[$]C(C[<])(C[<])(C[<])", "[$]C(C[<])(C[<])C[<]", "[$][Si]([<])([<])O[<]", "[$]c1c([<])cc([<])cc1[<]"])
     else:
-        hub = "[$]C(C[<])(C[<])"
+        hub = rnd.choice(["[$]C(C[<])(C[<])", "[$]CC([<])C[<]", "[$]N(C[<])C[<]", "[$]c1cc([<])cc(c1)[<]"])
     two_kinds = rnd.random() < 0.4
     units = [hub, arm.format("[>]", "[<]")]
     ends = [rnd.choice(ENDS)[0].format("[>]")]
     if two_kinds:
-        hub2 = hub[: hub.rfind("[<]")] + "[<2" + _w(rnd, 0.5) + "])"
+        k_last = hub.rfind("[<]")
+        hub2 = hub[:k_last] + "[<2" + _w(rnd, 0.5) + "]" + hub[k_last + 3:]
         units[0] = hub2
         arm2 = rnd.choice(UNITS2)[0]
         w = _w(rnd, 0.5)
